@@ -20,8 +20,52 @@ LEVEL = "proof"
 TRUSTED = ("arbitrary BYTES are the protobuf parser's domain: wire-level inputs are judged by the coherence oracle only (fault enumeration); 'never hangs' is a 20 s alarm",)
 
 
+_CONTROL = {}
+
+
+def control_load(ctx, g, after, file_hex):
+    """'every file produced by save from a self-contained IR is accepted' -- whatever was loaded, and REJECTED, before it in the same
+    process: a small unrelated saved file (its own UUIDs, intervals with symbolic expressions in two modules, a CFG, AuxData) is
+    loaded right after a rejected one and must come back coherent."""
+    if "bytes" not in _CONTROL:
+        ir = g.IR()
+        for j in range(2):
+            m = g.Module(name="control%d" % j, ir=ir)
+            sec = g.Section(name="s", module=m)
+            y = g.Symbol("y%d" % j, module=m)
+            for k in range(2):
+                bi = g.ByteInterval(address=4096 * (2 * j + k + 1), size=16, contents=b"\x00" * 8, section=sec)
+                cb = g.CodeBlock(offset=0, size=4, byte_interval=bi)
+                bi.symbolic_expressions[4 * k] = g.SymAddrConst(k, y)
+            m.entry_point = cb
+            g.Symbol("z%d" % j, payload=cb, module=m)
+        ir.cfg.add(g.Edge(cb, cb, g.Edge.Label(g.Edge.Type.Branch, False, True)))
+        ir.aux_data["t"] = g.AuxData({cb: 1}, "mapping<UUID,uint8_t>")
+        _CONTROL["bytes"] = protocheck.save_bytes(ir)
+    ctx.count("control_loads_after_rejections")
+    try:
+        ir2 = protocheck.load_bytes(g, _CONTROL["bytes"])
+        probs = protocheck.safe_coherence(g, ir2)
+    except Exception as e:  # noqa: BLE001
+        probs = ["load raised %s: %s" % (exc_name(g, e), str(e)[:80])]
+    if probs:
+        ctx.add("oracle", "saved-rejected", "a valid saved file loaded right after %s was rejected is itself not accepted: %s" % (after, probs[0]),
+                {"tag": after, "file": file_hex, "control_file": _CONTROL["bytes"].hex()})
+        return False
+    return True
+
+
 def judge_bytes(ctx, g, bs, tag, sigp):
     """load must raise or return a coherent, saveable IR"""
+    out = _judge_bytes(ctx, g, bs, tag, sigp)
+    if out not in ("ok", "hang"):
+        _CONTROL["n"] = _CONTROL.get("n", 0) + 1
+        if _CONTROL["n"] <= 40 or _CONTROL["n"] % 25 == 0:
+            control_load(ctx, g, "a corrupted file (%s)" % tag, bs.hex())
+    return out
+
+
+def _judge_bytes(ctx, g, bs, tag, sigp):
     try:
         ir = protocheck.load_bytes(g, bs)
     except ImplTimeout:
@@ -98,6 +142,8 @@ def run(ctx):
             if r is None:
                 continue
             outcome = r[0]
+            if outcome[0] != 0:
+                control_load(ctx, g, "a message with the fault %s" % sig, r[2].hex())
             if want is None:
                 continue                    # merged duplicate: coherence (already judged in reader_stream) is all that is required
             want_cls = want.rstrip("*")
